@@ -232,7 +232,7 @@ FEATURES = [[], [], [], ['BUILTIN_FUNCTIONS'], ['EQUALITY_OPERATORS'], ['ASSERT_
 
 def gen_cfg(b):
   return {'max_depth': b.get('max_depth', 3), 'budget': b.get('budget', 12), 'excl': EXCL, 'unbound_reads': False,
-          'raise': False, 'helpers': 1, 'max_stmts': 7}
+          'raise': False, 'helpers': 1, 'max_stmts': 7, 'del': False}
 
 
 def _draw_function(g, draw, name, ind, closure):
